@@ -404,6 +404,102 @@ func genLongQueue(r *rng.R, tier string) corr.Case {
 	return corr.Case{Tag: "long-queue/" + variant, Lines: lines}
 }
 
+// int keys whose xxhash values agree in the low 32 bits but lie in different shards (A, B), and a key C sharing only
+// the low byte with them — mined from remap.XXHash with the harness' own shard arithmetic; valid for the primes named.
+var collide = map[int][][3]int{
+	73:  {{90880, 73747, 508}, {102191, 96392, 109}, {122229, 98658, 118}, {136578, 387, 12}},
+	211: {{90880, 73747, 508}, {102191, 96392, 109}, {122229, 98658, 118}, {136578, 387, 12}},
+	2:   {{122229, 98658, 118}, {174529, 78820, 345}, {209040, 102028, 100}, {226985, 6567, 619}},
+}
+
+// routing history: keys are held on a sharded map while (a) other containers with other primes are created and used
+// (`newmap`), (b) keys colliding in the low bits of the hash and keys evicting them are looked up; then the held keys
+// are asked for again. Routing must be a pure function of the key: the second request meets the first.
+func genRouteHistory(r *rng.R, tier string) corr.Case {
+	rw := r.PickInt(1, 2, 3, 4)
+	variant := r.Pick("xhash", "xhash", "wide")
+	prime := r.PickInt(73, 211, 2, 0, 97)
+	lines := []string{fmt.Sprintf("new %s %d %d", variant, rw, prime)}
+	s := newSim(rw)
+	next := 0
+	acq := func(op, key string, write bool) int {
+		lines = append(lines, fmt.Sprintf("%s %d %s", op, next, key))
+		s.acquire(next, key, write)
+		if strings.HasSuffix(op, "x") {
+			s.cancel(next)
+		}
+		next++
+		return next - 1
+	}
+	p := prime
+	if p == 0 {
+		p = 73
+	}
+	var held []string
+	if trip, ok := collide[p]; ok && variant == "xhash" && r.Intn(2) == 0 {
+		// memo history: touch B, hold A, touch C, ask for A again (both orders of A and B)
+		t := trip[r.Intn(len(trip))]
+		a, b, c := t[0], t[1], t[2]
+		if r.Intn(2) == 0 {
+			a, b = b, a
+		}
+		ka, kb, kc := "i"+strconv.Itoa(a), "i"+strconv.Itoa(b), "i"+strconv.Itoa(c)
+		tb := acq("acqW", kb, true)
+		if r.Intn(3) != 0 {
+			lines = append(lines, "rel "+strconv.Itoa(tb))
+			s.release(tb)
+		}
+		acq(r.Pick("acqW", "acqR"), ka, true)
+		held = append(held, ka)
+		tc := acq("acqW", kc, true)
+		if r.Intn(3) != 0 {
+			lines = append(lines, "rel "+strconv.Itoa(tc))
+			s.release(tc)
+		}
+	} else {
+		// shared tables: hold 6-14 keys (strings on wide maps are routed by xxhash as well), then other containers appear
+		n := r.Range(6, 14)
+		for i := 0; i < n; i++ {
+			k := "s" + string(rune('a'+i)) + strings.Repeat("x", i%4)
+			if variant == "xhash" && i%3 == 0 {
+				k = "i" + strconv.Itoa(1000+37*i)
+			}
+			acq(r.Pick("acqW", "acqW", "acqR"), k, true)
+			held = append(held, k)
+		}
+		for j, m := 0, r.Range(1, 3); j < m; j++ {
+			lines = append(lines, fmt.Sprintf("newmap %s %d %d", r.Pick("xhash", "wide", "single"), r.PickInt(1, 2, 5), r.PickInt(13, 2, 7, 31, 1, 73, 0)))
+		}
+	}
+	lines = append(lines, "who")
+	// the held keys are requested again: writers with an ended context come back with `ctx` when routing is stable
+	for _, k := range held {
+		switch r.Intn(3) {
+		case 0:
+			acq("acqW", k, true)
+		default:
+			acq("acqWx", k, true)
+		}
+	}
+	lines = append(lines, "who", "entries")
+	for guard := 0; guard < 200; guard++ {
+		holders, waiting := s.with(stInside), s.with(stParked)
+		if len(holders)+len(waiting) == 0 {
+			break
+		}
+		if len(holders) > 0 {
+			t := holders[r.Intn(len(holders))]
+			lines = append(lines, "rel "+strconv.Itoa(t))
+			s.release(t)
+		} else {
+			lines = append(lines, "cancel "+strconv.Itoa(waiting[0]))
+			s.cancel(waiting[0])
+		}
+	}
+	lines = append(lines, "who", "entries")
+	return corr.Case{Tag: "route-history/" + variant, Lines: lines}
+}
+
 // genuinely parallel stress (child process): goroutines x keys for a few hundred ms; the only correct outcome is `ok`
 func genStress(r *rng.R, tier string) corr.Case {
 	ms := r.Range(200, 350)
@@ -422,7 +518,7 @@ func genMalformed(r *rng.R) corr.Case {
 	lines := []string{r.Pick("new single 2 0", "new wide 3 2", "new xhash 1 73")}
 	junk := []string{"", "rel", "rel 99", "rel x", "rel 01", "cancel 77", "cancel -1", "acqR 1", "acqR 1 i5 extra", "acqR 01 i5",
 		"acqR 1 x5", "acqR 1 i05", "acqR 1 i+5", "acqR 1 i", "acqW 1234567890 i1", "acqR 1 i9223372036854775808",
-		"acqR -1 i5", "acqR 1 h2147483648", "acqR 1 b256", "acqR 1 b-1", "acqR 1 t5", "acqR 1 p", "acqR 1 p1000", "acqR 1 f1001", "acqR 1 f0.5", "acqR 1 f-00", "poke", "poke x", "poke 1000", "burst single 0 0 10", "burst single 2 0 0", "burst single 2 0 20001", "burst tri 2 0 10", "acqR 1 tx:a", "acqR 1 l", "stress single 0 0 8 2 100 1", "stress single 2 0 65 2 100 1", "stress single 2 0 8 9 100 1", "stress single 2 0 8 2", "new single 0 0", "new triple 2 0", "new single 2", "new single 02 0", "new single 2 12345",
+		"acqR -1 i5", "acqR 1 h2147483648", "acqR 1 b256", "acqR 1 b-1", "acqR 1 t5", "acqR 1 p", "acqR 1 p1000", "acqR 1 f1001", "acqR 1 f0.5", "acqR 1 f-00", "poke", "poke x", "poke 1000", "newmap", "newmap tri 2 2", "newmap wide 0 2", "newmap wide 2", "newmap xhash 2 13", "burst single 0 0 10", "burst single 2 0 0", "burst single 2 0 20001", "burst tri 2 0 10", "acqR 1 tx:a", "acqR 1 l", "stress single 0 0 8 2 100 1", "stress single 2 0 65 2 100 1", "stress single 2 0 8 9 100 1", "stress single 2 0 8 2", "new single 0 0", "new triple 2 0", "new single 2", "new single 02 0", "new single 2 12345",
 		"new single 1234567 0", "state", "state k", "inside", "inside 5", "who now", "entries 1", "ACQR 1 i5", "acqRx 3",
 		"acqZ 1 i5", "rel 1 2", "relx 1", "relx 1 x", "relx 99 1", "obj", "obj 99", "obj x", "state i05", "inside i--1", "new wide 2 -1"}
 	n := r.Range(6, 16)
@@ -598,6 +694,16 @@ func fixedCases() []corr.Case {
 		mk("burst-5000-single", "burst single 3 0 5000"),
 		mk("burst-4500-one-shard", "burst wide 2 1 4500"),
 		mk("burst-xhash", "burst xhash 1 73 6000"),
+		// routing is a pure function of the key: other containers with other primes appear while keys are held …
+		mk("other-containers-xhash", "new xhash 2 73", "acqW 1 sa", "acqW 2 sbx", "acqW 3 scxx", "acqR 4 i1000", "acqW 5 sd", "acqW 6 se", "acqW 7 i90880", "acqW 8 sf", "acqW 9 sg", "acqW 10 sh",
+			"newmap xhash 2 13", "newmap wide 1 2", "who", "acqWx 11 sa", "acqWx 12 sbx", "acqWx 13 scxx", "acqWx 14 i1000", "acqWx 15 sd", "acqWx 16 se", "acqWx 17 i90880", "acqWx 18 sf", "acqWx 19 sg", "acqWx 20 sh",
+			"who", "rel 1", "rel 2", "rel 3", "rel 4", "rel 5", "rel 6", "rel 7", "rel 8", "rel 9", "rel 10", "who", "entries"),
+		mk("other-containers-wide-strings", "new wide 3 0", "acqW 1 sa", "acqW 2 sbb", "acqW 3 sccc", "acqW 4 sdddd", "acqW 5 se", "acqW 6 sf", "newmap xhash 1 7", "acqWx 7 sa", "acqWx 8 sbb", "acqWx 9 sccc", "acqWx 10 sdddd", "acqWx 11 se", "acqWx 12 sf",
+			"who", "rel 1", "rel 2", "rel 3", "rel 4", "rel 5", "rel 6", "entries"),
+		// … and lookup history: int keys 90880 / 73747 agree in the low 32 bits of their hash, 508 shares the low byte (73 and 211 shards)
+		mk("lookup-history-73", "new xhash 4 0", "acqW 1 i73747", "rel 1", "acqW 2 i90880", "acqW 3 i508", "rel 3", "acqWx 4 i90880", "who", "inside i90880", "rel 2", "entries"),
+		mk("lookup-history-211", "new xhash 2 211", "acqW 1 i90880", "rel 1", "acqW 2 i73747", "acqW 3 i508", "rel 3", "acqW 4 i73747", "who", "rel 2", "who", "rel 4", "entries"),
+		mk("lookup-history-2", "new xhash 2 2", "acqW 1 i98658", "acqW 2 i122229", "acqW 3 i118", "rel 3", "acqWx 4 i122229", "acqWx 5 i98658", "who", "rel 1", "rel 2", "entries"),
 		mk("parallel-stress", "stress single 3 0 16 2 250 1"),
 		// sharded by xxhash, 8 short string keys of different lengths, three callers per key: every call hashes a string
 		mk("parallel-stress-strings", "stress xhash 4 2 24 8 300 3"),
@@ -645,6 +751,9 @@ func spec() corr.Spec {
 			if i%20 == 3 {
 				return genLongQueue(r, tier)
 			}
+			if i%25 == 9 {
+				return genRouteHistory(r, tier)
+			}
 			return genScript(r, tier)
 		},
 		Run: runCase,
@@ -668,7 +777,7 @@ func spec() corr.Spec {
 			}
 			return "C01:corr:" + op
 		},
-		Rule: "sequential class: scripts of acqR/acqW/acqRx/acqWx/rel/relx/cancel events (quiescence after each) over <= 12 (thorough <= 16; rwRatio+2 more for rwRatio >= 7) simultaneous callers, 1-4 keys of dynamic types int/int32/int64/uint8/string and - not routable by remap: `panic:unroutable` on sharded maps - struct/pointer (pointee poked under the lock)/float64 (0.0 and -0.0 one key) (incl. extreme values, the same number under four types), rwRatio in {1,2,3,4,7,10,64,default}, single/wide/xhash maps with prime in {1,2,3,73,default 211}; 5 generator classes (rw-mix, reader-heavy, writer-heavy, cancel-heavy, drain) + 1/20 long-queue (20-40, thorough 20-60 blocked callers behind a writer, late arrivals, cancels at head/middle/tail) + 1/12 malformed; burst class: `burst` lines = 4500-6000 distinct keys held at once, probed with a second writer, all released, container must be empty; parallel class: `stress` lines = N goroutines x few keys for 0.2-1.5 s in a child process, no scheduling by the harness (callers' own section counters, termination, empty container, runtime fatal errors); thorough adds every maximal script <= 7 events over 3 callers x 2 keys (rw 2), <= 7 events over 4 callers (rw 3), <= 6 events incl. relx (rw 1, rw 2). A case is non-trivial when some caller had to wait or a release/cancel admitted a waiter; distinct = distinct script text",
+		Rule: "sequential class: scripts of acqR/acqW/acqRx/acqWx/rel/relx/cancel events (quiescence after each) over <= 12 (thorough <= 16; rwRatio+2 more for rwRatio >= 7) simultaneous callers, 1-4 keys of dynamic types int/int32/int64/uint8/string and - not routable by remap: `panic:unroutable` on sharded maps - struct/pointer (pointee poked under the lock)/float64 (0.0 and -0.0 one key) (incl. extreme values, the same number under four types), rwRatio in {1,2,3,4,7,10,64,default}, single/wide/xhash maps with prime in {1,2,3,73,default 211}; 5 generator classes (rw-mix, reader-heavy, writer-heavy, cancel-heavy, drain) + 1/20 long-queue (20-40, thorough 20-60 blocked callers behind a writer, late arrivals, cancels at head/middle/tail) + 1/12 malformed; route-history class (1/25): keys held on a sharded map while other containers with other primes are created (`newmap`) or keys colliding in the low 32 bits of the hash / evicting them are looked up, then the held keys are requested again; burst class: `burst` lines = 4500-6000 distinct keys held at once, probed with a second writer, all released, container must be empty; parallel class: `stress` lines = N goroutines x few keys for 0.2-1.5 s in a child process, no scheduling by the harness (callers' own section counters, termination, empty container, runtime fatal errors); thorough adds every maximal script <= 7 events over 3 callers x 2 keys (rw 2), <= 7 events over 4 callers (rw 3), <= 6 events incl. relx (rw 1, rw 2). A case is non-trivial when some caller had to wait or a release/cancel admitted a waiter; distinct = distinct script text",
 		Assumptions: []string{
 			"sync.Mutex makes each of the three critical sections (acquire up to Unlock, release, cancel fix-up) atomic; channels/select/context behave as documented",
 			"caller discipline (hypothesis of every theorem, `KS.enabled` in the model; SemMap.release trusts key, w and n blindly): a caller releases only what it acquired, once, with the SAME key, the matching Release* (read/write) and the *Weighted it was given",
